@@ -361,3 +361,10 @@ Definition commit_fail_step (a : allocst) (t : txst) (extra : bool) : commit_out
   | COutOfMemory a2 t2 => CoOOM a2 t2
   | COk c a2 t2 => CoOk (rollback a2 t2)
   end.
+
+(* file.go initTxMaxSize (open with FlagUpdMaxSize, the limit grows or is removed): the data end marker committed by
+   the transaction that updates the limit (repairs D12 and D20) *)
+Definition grow_data_end (oldMax newMax dataEnd metaEnd : Z) : Z :=
+  if (0 <? oldMax) && (oldMax <? metaEnd) && ((newMax =? 0) || (oldMax <? newMax))
+  then Z.max dataEnd (if (0 <? newMax) && (newMax <? metaEnd) then newMax else metaEnd)
+  else dataEnd.
